@@ -23,6 +23,7 @@ package c13
 
 import (
 	"bytes"
+	"encoding/json"
 	"fmt"
 	mrand "math/rand/v2"
 	"net"
@@ -431,6 +432,28 @@ func summary(m *dnsx.Msg) map[string]any {
 		"answer": rrs(m.Answer), "authority": rrs(m.Authority), "additional": rrs(m.Extra)}
 }
 
+// lazyCase is the JSON payload of a case, rendered only when it is written out
+// (violation or sample).
+type lazyCase struct {
+	spec *dnsx.Msg
+	kv   map[string]any
+}
+
+func newCase(spec *dnsx.Msg, kv map[string]any) *lazyCase { return &lazyCase{spec, kv} }
+
+func (c *lazyCase) set(k string, v any) { c.kv[k] = v }
+
+func (c *lazyCase) MarshalJSON() ([]byte, error) {
+	m := map[string]any{"message": summary(c.spec)}
+	for k, v := range c.kv {
+		if b, ok := v.([]byte); ok {
+			v = mon.Hex(b)
+		}
+		m[k] = v
+	}
+	return json.Marshal(m)
+}
+
 // ---- the check ----
 
 func TestCheck(t *testing.T) {
@@ -446,7 +469,7 @@ func TestCheck(t *testing.T) {
 		"names are compared as label sequences; labels never contain '.'")
 
 	// -- encode direction --
-	nEnc := r.N(10000, 1200000)
+	nEnc := r.N(10000, 600000)
 	r.Parallel("encode", nEnc, func(i int, rng *mrand.Rand) {
 		c := genEncode(i, rng)
 		spec := c.spec
@@ -454,10 +477,10 @@ func TestCheck(t *testing.T) {
 		if c.class == "root-qname" && i%64 >= 32 {
 			in.Question[0].Name = "." // both spellings of the root
 		}
-		payload := map[string]any{"message": summary(spec), "class": c.class}
+		payload := newCase(spec, map[string]any{"class": c.class})
 		r.Guard("encode", i, "encode", payload, func() {
 			got := in.Bytes()
-			payload["bytes"] = mon.Hex(got)
+			payload.set("bytes", got)
 			r.Eval(fmt.Sprintf("enc|%d|%d|%d|%s", c.sel, c.nl, c.mask, c.class))
 			r.Count("encode_messages", 1)
 			r.Count("encode_records", int64(len(spec.Answer)+len(spec.Authority)+len(spec.Extra)))
@@ -536,7 +559,7 @@ func TestCheck(t *testing.T) {
 	r.Floor("extended_rcodes_above_15", 100)
 
 	// -- decode direction --
-	nDec := r.N(8000, 800000)
+	nDec := r.N(8000, 400000)
 	r.Parallel("decode", nDec, func(i int, rng *mrand.Rand) {
 		g := dnsx.NewGen(rng, i%5 == 3)
 		g.RootData = true
@@ -620,7 +643,7 @@ func TestCheck(t *testing.T) {
 			return
 		}
 		compressed := len(pkt) < len(spec.Wire())
-		payload := map[string]any{"message": summary(spec), "packet": mon.Hex(pkt), "compress": compress}
+		payload := newCase(spec, map[string]any{"packet": pkt, "compress": compress})
 		r.Guard("decode", i, "decode", payload, func() {
 			dec, err := dns.DecodeMessage(pkt)
 			r.Eval(fmt.Sprintf("dec|%d|%d|%v|%s", sel, nl, compress, strings.Join(types, ",")))
@@ -657,7 +680,7 @@ func TestCheck(t *testing.T) {
 
 	// -- AddPadding --
 	const modes = 8
-	nPad := r.N(253*modes, 253*modes*40)
+	nPad := r.N(253*modes, 253*modes*20)
 	r.Parallel("padding", nPad, func(i int, rng *mrand.Rand) {
 		nameLen := 1 + i%253
 		mode := (i / 253) % modes
@@ -719,13 +742,13 @@ func TestCheck(t *testing.T) {
 			others = dnsx.OPT{}
 		}
 		in := toRepo(spec, func(int) bool { return i%2 == 1 })
-		payload := map[string]any{"message": summary(spec), "name_len": nameLen, "mode": mode}
+		payload := newCase(spec, map[string]any{"name_len": nameLen, "mode": mode})
 		r.Guard("padding", i, "padding", payload, func() {
 			before := len(in.Bytes())
 			in.AddPadding()
 			check := func(stage string) bool {
 				b := in.Bytes()
-				payload["bytes_"+stage] = mon.Hex(b)
+				payload.set("bytes_"+stage, b)
 				if len(b)%128 != 0 || len(b) == 0 {
 					r.Violate("padding", i, "padding:length", fmt.Sprintf("%s: encoded length %d (was %d) is not a multiple of 128", stage, len(b), before), payload)
 					return false
